@@ -152,6 +152,11 @@ func loadProjectFromFile(inputFile string, opts *LoaderOptions) (*types.Project,
 		log.Fatal().Err(err).Msgf("Failed to parse %s", inputFile)
 	}
 	if project.DisableEnvExpansion {
+		// parse the raw text into a fresh project: yaml merges into existing maps, so the keys
+		// of the expanded text would survive next to the raw ones
+		project = &types.Project{
+			LogLength: defaultLogLength,
+		}
 		err = yaml.Unmarshal(yamlFile, project)
 		if err != nil {
 			if opts.IsInternalLoader {
